@@ -9,6 +9,9 @@ decided.
 """
 from ..astq import AstDB
 from ..engines import e3_tables as e3
+from ..engines import e2_state as e2
+from ..extract import AnalysisBroken
+from .c12 import RECT
 
 LEVEL = "other"
 
@@ -19,8 +22,19 @@ def run(chk):
     chk.rule("T.rect", "Rect::Contains(Rect) == closed inclusion, Rect::Intersects == closed boxes meet, Rect::IsEmpty == zero or negative "
              "extent, on every weak ordering of the eight coordinates; RectClip64::Execute uses them as: outside -> continue, "
              "inside -> result.emplace_back(path); continue")
+    chk.rule("LOOP", "nothing written while clipping one path is read while clipping the next ('path by path')")
+    chk.rule("CLEAN", "RectClip64's scratch containers are empty again at every normal exit of Execute")
     for cfg in cfgs:
-        e3.rect_shortcuts(AstDB(cfg), chk, cfg)
+        db = AstDB(cfg)
+        e3.rect_shortcuts(db, chk, cfg)
+        eng = e2.E2(db, chk, cfg, ["RectClip64", "RectClipLines64"])
+        e2.check_classification(eng, RECT, chk, "RectClip64")
+        f = db.one("RectClip64::Execute")
+        ls = e2.find_loops(f, lambda l: l.get("kind") == "CXXForRangeStmt" and "paths" in e2.loop_header_text(l))
+        if len(ls) != 1:
+            raise AnalysisBroken("path loop of RectClip64::Execute not found")
+        e2.rule_loop(eng, chk, cfg, f, ls[0], RECT, [{}], "path loop of RectClip64::Execute")
+        e2.rule_clean(eng, chk, cfg, [f], RECT, [{}])
     chk.floor("T.rect", 3600 * len(cfgs))
     chk.exhaustive = True
     chk.explanation = (
